@@ -364,6 +364,55 @@ void sexp_conservative_mark (sexp ctx) {
 #endif
 
 #if SEXP_USE_WEAK_REFERENCES
+/* The extra slots of a weak object (the value of an ephemeron) are */
+/* kept by sexp_reset_weak_references below as long as one of its */
+/* weak slots (the key) survives, but nothing else traces them.  Mark */
+/* them here, repeating until nothing changes since a value just */
+/* marked may hold the key of another ephemeron. */
+static void sexp_mark_weak_extras(sexp ctx) {
+  int i, len, live_p, changed_p;
+  sexp_heap h;
+  sexp p, t, end, *v;
+  sexp_free_list q, r;
+  do {
+    changed_p = 0;
+    for (h = sexp_context_heap(ctx) ; h; h=h->next) {
+      p = sexp_heap_first_block(h);
+      q = h->free_list;
+      end = sexp_heap_end(h);
+      while (p < end) {
+        for (r=q->next; r && ((char*)r<(char*)p); q=r, r=r->next)
+          ;
+        if ((char*)r == (char*)p) { /* this is a free block, skip it */
+          p = (sexp) (((char*)p) + r->size);
+          continue;
+        }
+        if (sexp_valid_object_p(ctx, p) && sexp_markedp(p)) {
+          t = sexp_object_type(ctx, p);
+          if (sexp_type_weak_base(t) > 0 && sexp_type_weak_len_extra(t) > 0) {
+            live_p = 0;
+            v = (sexp*) ((char*)p + sexp_type_weak_base(t));
+            len = sexp_type_num_weak_slots_of_object(t, p);
+            for (i=0; i<len; i++)
+              if (! (v[i] && sexp_pointerp(v[i]) && ! sexp_markedp(v[i])))
+                live_p = 1;
+            if (live_p) {
+              len += sexp_type_weak_len_extra(t);
+              for ( ; i<len; i++) {
+                if (v[i] && sexp_pointerp(v[i]) && ! sexp_markedp(v[i])) {
+                  sexp_mark(ctx, v[i]);
+                  if (sexp_markedp(v[i])) changed_p = 1;
+                }
+              }
+            }
+          }
+        }
+        p = (sexp) (((char*)p)+sexp_heap_align(sexp_allocated_bytes(ctx, p)));
+      }
+    }
+  } while (changed_p);
+}
+
 int sexp_reset_weak_references(sexp ctx) {
   int i, len, broke, all_reset_p;
   sexp_heap h;
@@ -371,6 +420,7 @@ int sexp_reset_weak_references(sexp ctx) {
   sexp_free_list q, r;
   if (sexp_not(sexp_global(ctx, SEXP_G_WEAK_OBJECTS_PRESENT)))
     return 0;
+  sexp_mark_weak_extras(ctx);
   broke = 0;
   /* just scan the whole heap */
   for (h = sexp_context_heap(ctx) ; h; h=h->next) {
